@@ -30,8 +30,8 @@ func TestScanRequest(t *testing.T) {
 		{"*1\r\n$", ReqNeedMore}, {"*12", ReqNeedMore},
 		{"*0\r\n", ReqEmpty}, {"*-1\r\n", ReqEmpty},
 		{"*01\r\n$4\r\nPING\r\n", ReqProtoError}, {"*1\r\n$04\r\nPING\r\n", ReqProtoError}, {"*2\r\n$3\r\nget\r\n$-1\r\n", ReqProtoError},
-		{"*1\n$4\r\nPING\r\n", ReqProtoError}, {"*1\r\n$4\r\nPINGxx", ReqProtoError}, {"*1\r\n:4\r\n", ReqProtoError},
-		{"*+1\r\n", ReqProtoError}, {"* 1\r\n", ReqProtoError}, {"*99999999999999999999\r\n", ReqProtoError}, {"*x", ReqProtoError},
+		{"*1\n$4\r\nPING\r\n", ReqProtoError}, {"*1\r\n$4\r\nPINGxx", ReqProtoError}, {"*1\r\n$4\r\nPINGx", ReqNeedMore}, {"*1\r\n:4\r\n", ReqProtoError}, {"*1\r\n:4", ReqNeedMore},
+		{"*+1\r\n", ReqProtoError}, {"* 1\r\n", ReqProtoError}, {"*99999999999999999999\r\n", ReqProtoError}, {"*x", ReqNeedMore}, {"*x\r\n", ReqProtoError}, {"*1\r\n$x", ReqNeedMore}, {"*1\r\n$x\r\n", ReqProtoError},
 		{"PING\r\n", ReqInline}, {"\r\n", ReqInline},
 	} {
 		st, _, _, why := ScanRequest([]byte(c.in))
